@@ -6,6 +6,7 @@ import (
 	"fmt"
 	"strings"
 	"sync"
+	"sync/atomic"
 	"testing"
 
 	"github.com/bufbuild/protocompile"
@@ -104,6 +105,11 @@ func c09Check(c c09Case, r *ev.Rec) error {
 		return protocompile.SearchResult{}, protoregistry.NotFound
 	})
 	n := max(1, c.Parallel)
+	hasProtoForm := false
+	for _, fm := range c.Forms {
+		hasProtoForm = hasProtoForm || fm == "proto"
+	}
+	var skipped atomic.Bool
 	errs := make([]error, n)
 	var wg sync.WaitGroup
 	for i := 0; i < n; i++ {
@@ -113,6 +119,10 @@ func c09Check(c c09Case, r *ev.Rec) error {
 			comp := protocompile.Compiler{Resolver: res, SourceInfoMode: mode, MaxParallelism: 1 + i%3}
 			got, err := comp.Compile(context.Background(), c.Names...)
 			if err != nil {
+				if strings.Contains(err.Error(), "failed to parse message literal") && hasProtoForm && r.Known("proto-form-aggregate-text-format", err.Error()) {
+					skipped.Store(true)
+					return
+				}
 				errs[i] = fmt.Errorf("compilation %d with forms %v failed: %v", i, c.Forms, err)
 				return
 			}
@@ -142,6 +152,10 @@ func c09Check(c c09Case, r *ev.Rec) error {
 		if e != nil {
 			return e
 		}
+	}
+	if skipped.Load() {
+		r.Case(ev.JSONFP(c), false, "excluded=proto-form-aggregate-text-format")
+		return nil
 	}
 	// supplied objects untouched
 	kinds := map[string]bool{}
@@ -175,7 +189,7 @@ const c09Rule = "each file of a valid workspace is supplied as source, AST, pars
 func TestC09_Generated(t *testing.T) {
 	ev.Run(t, ev.Spec[c09Case]{ID: "C09", Name: "Generated", Quick: 500, Thorough: 20000, Rule: "generated valid workspaces; " + c09Rule,
 		Gen: func(t *rapid.T) c09Case {
-			ws := gen.GenWorkspace(t, gen.Config{})
+			ws := gen.GenWorkspace(t, gen.Config{CustomOpts: gen.Pct(t, 60, "custom"), PrototextSafe: gen.Pct(t, 75, "ptsafe")})
 			c := c09Case{Files: ws.PrintAll(), Names: ws.Names(), Forms: map[string]string{}, SrcInfo: rapid.IntRange(0, 3).Draw(t, "srcinfo"), Parallel: rapid.IntRange(1, 4).Draw(t, "par")}
 			if c.SrcInfo == 3 {
 				c.SrcInfo = int(protocompile.SourceInfoExtraComments | protocompile.SourceInfoExtraOptionLocations)
